@@ -203,6 +203,9 @@ class StmtMixin(CallMixin):
                 return
             raise Unsupported("subscript assignment on %s" % oty)
         if isinstance(tgt, (ast.Tuple, ast.List)):
+            if isinstance(v.ty, Opt) and isinstance(v.ty.inner, Tup):
+                self.oblige(st, "none", "unpack", z3.Not(T.opt_is_none(v)))       # unpacking None is a TypeError
+                v = T.opt_val(v)
             if v.ty == PYOBJ and v.t.kind == "pytuple":
                 items = v.t.items
             elif isinstance(v.ty, Tup):
@@ -466,7 +469,49 @@ class StmtMixin(CallMixin):
         spec = self.loop_spec(s)
         if s.orelse:
             raise Unsupported("for-else (line %s)" % s.lineno)
+        if spec.unroll is not None and not spec.invariants:
+            return self.unroll_for(s, st, spec)
         return self.cut_loop(s, st, spec, kind="for")
+
+    def unroll_for(self, s, st, spec):
+        """Bounded unrolling of a for loop over a list / range: iteration k runs with the concrete index lo+k; an
+        unwinding assertion fails if more than `unroll` iterations are possible (so a pass is complete)."""
+        outs = []
+        ord0 = self.loop_ord
+        for s0, dv in self.for_domain(s, st):
+            if dv["kind"] not in ("list", "range"):
+                raise Unsupported("unrolling a for loop over a %s (line %s)" % (dv["kind"], s.lineno))
+            base = dv["lo"].t if dv["kind"] == "range" else T.intval(0).t
+            live = [s0]
+            for it in range(spec.unroll + 1):
+                nxt = []
+                for cur in live:
+                    dv_k = dict(dv)
+                    dv_k["i"] = V(INT, base + T.intval(it).t)
+                    hi = dv["hi"].t if dv["kind"] == "range" else T.list_len(dv["list"])
+                    done = dv_k["i"].t >= hi
+                    se = cur.copy().assume(done)
+                    if self.feasible(se):
+                        outs.append(Out("fall", se))
+                    sb = cur.copy().assume(z3.Not(done))
+                    if not self.feasible(sb):
+                        continue
+                    if it == spec.unroll:
+                        self.oblige(sb, "unwind", "loop%d<=%d" % (spec.ordinal, spec.unroll), z3.BoolVal(False), s.lineno, assume=False)
+                        continue
+                    self.dom_bind(s, dv_k, sb)
+                    self.loop_ord = ord0
+                    for o in self.exec_block(s.body, sb):
+                        if o.kind in ("fall", "continue"):
+                            nxt.append(o.st)
+                        elif o.kind == "break":
+                            outs.append(Out("fall", o.st))
+                        else:
+                            outs.append(o)
+                live = nxt
+                if not live:
+                    break
+        return outs
 
     st_AsyncFor = None
 
